@@ -44,6 +44,11 @@ def case_strategy(draw, tier):
                  "second_round": draw(st.sampled_from([None, None, "start", "end"])),
                  "repair": draw(st.integers(0, 5)) == 0 and mobile >= 3,
                  "seed2": draw(gen.SEEDS)})
+    if mobile >= 20 and pair.get("far") and draw(st.booleans()):
+        # the rare combination the far / long classes were added for: a long flexible mobile molecule at box scale
+        # WITH single-atom moves (bond restoring cascades through many atoms on a coarse grid)
+        pair["deform"] = draw(st.sampled_from([[2], [0, 1, 2], [2, 0]]))
+        pair["ignore_h"] = False
     return pair
 
 
@@ -107,7 +112,7 @@ def judge(case, s0, e0, ali, label):
     # origin and after thousands of accepted steps it is not: the bound allows for one grid step per accepted step
     from vlib import build as _build
     grid = float(np.finfo(float).eps) * float(max(np.abs(s0).max(), np.abs(e0).max()))
-    tol = 1e-9 + 4.0 * grid * _build.ACCEPTED[0]
+    tol = 1e-9 + float(os.environ.get("VERIF_C06_K", "4.0")) * grid * _build.ACCEPTED[0]
     # the larger molecule (ties: start) is only translated; untouched when it is the end molecule
     if start_mobile:
         if not np.array_equal(e1, e0):
